@@ -36,6 +36,20 @@ func (e *Engine) doCall(st *State, fr *Frame, c *ssa.CallCommon, p token.Pos, k 
 func (e *Engine) invoke(st *State, fnv Value, args []Value, c *ssa.CallCommon, depth int, pos string, k func(*State, Value)) {
 	switch f := fnv.(type) {
 	case VFunc:
+		// a method value (`g := x.M; g(a)`): go/ssa wraps it in a synthetic closure "M$bound" that captures the receiver;
+		// calling it is calling M on that receiver - through M's contract, model or body like any direct call
+		if strings.HasSuffix(f.Fn.Name(), "$bound") && len(f.Bind) == 1 {
+			if m, ok := f.Fn.Object().(*types.Func); ok {
+				recv := f.Bind[0]
+				if target := e.prog.FuncValue(m); target != nil {
+					e.callNamed(st, target, append([]Value{recv}, args...), nil, depth, pos, k)
+					return
+				}
+				// interface method value: dispatch like an invoke
+				e.invoke(st, VAbs{Kind: "invoke", Data: m}, append([]Value{recv}, args...), c, depth, pos, k)
+				return
+			}
+		}
 		e.callNamed(st, f.Fn, args, f.Bind, depth, pos, k)
 		return
 	case VAbs:
